@@ -134,7 +134,100 @@ func (p c18) preset(c *core.Ctx) {
 	c.Nontrivial("preset|" + full + "|" + doc)
 }
 
+// negativeDefaults: a default that starts with a minus sign (a negative number) is substituted as written - inside
+// an expression and in front of a validation - when the key is not configured; a configured value wins.
+func (p c18) negativeDefaults(c *core.Ctx) {
+	d1, d2 := 1+c.Rng.Intn(20), 1+c.Rng.Intn(20)
+	add := c.Rng.Intn(30)
+	configured := c.Rng.Intn(3) == 0
+	cv := c.Rng.Intn(40) - 20
+	doc := "c18:\n  other: 1\n"
+	v1 := -d1
+	if configured {
+		doc = fmt.Sprintf("c18:\n  shift: %d\n", cv)
+		v1 = cv
+	}
+	type fld struct {
+		tag      string
+		want     int
+		wantFail bool
+	}
+	cands := []fld{
+		{fmt.Sprintf("#{${c18.shift:-%d}+%d}", d1, add), v1 + add, false},
+		{fmt.Sprintf("#{${c18.shift:-%d}*${c18.absent:-%d}}", d1, d2), v1 * -d2, false},
+		{fmt.Sprintf("${c18.shift:-%d}", d1), v1, false},
+		{fmt.Sprintf("${c18.absent:-%d},validate=lt=0", d2), -d2, false},
+		{fmt.Sprintf("${c18.absent:-%d},validate=gt=0", d2), -d2, true},
+		{fmt.Sprintf("#{${c18.absent:-%d}+%d},validate=lte=%d", d2, add, add-d2), add - d2, false},
+	}
+	f := cands[c.Rng.Intn(len(cands))]
+	full := fmt.Sprintf("value:%q", f.tag)
+	h := world.NewHolder(world.BuildStruct([]world.FieldSpec{{Name: "F", Type: reflect.TypeOf(0), Tag: full}}))
+	r := world.Start(&world.Scenario{Config: doc}, world.Options{Extra: []any{h}, NoTracer: true, BinderBudget: 20000})
+	c.Count("starts", 1)
+	c.Count("negative_defaults", 1)
+	got := reflect.ValueOf(h).Elem().Field(0).Interface()
+	detail := map[string]any{"tag": full, "config": doc, "outcome": core.Short(r.OutcomeDetail(), 300)}
+	if abnormal(r.Outcome()) {
+		c.Fail("", fmt.Sprintf("tag %s: %s", full, r.OutcomeDetail()), detail)
+		return
+	}
+	if f.wantFail {
+		if r.Outcome() != "error" {
+			c.Fail("", fmt.Sprintf("tag %s: the bound value %d violates the constraint, but the start outcome is %s (field: %v)", full, f.want, r.Outcome(), got), detail)
+			return
+		}
+	} else if r.Outcome() != "ok" || got != any(f.want) {
+		c.Fail("", fmt.Sprintf("tag %s: outcome %s, the field holds %v, expected %d", full, r.Outcome(), got, f.want), detail)
+		return
+	}
+	c.Nontrivial("negdefault|" + full + "|" + doc)
+}
+
+// deepPointer: a validated struct property declared as a pointer to a pointer: a bound value that satisfies every
+// member constraint never makes the start fail.
+func (p c18) deepPointer(c *core.Ctx) {
+	a, b := 1+c.Rng.Intn(100), 1+c.Rng.Intn(100)
+	doc := fmt.Sprintf("p:\n  limits:\n    soft: %d\n    hard: %d\n", a, b)
+	lim := world.BuildStruct([]world.FieldSpec{
+		{Name: "Soft", Type: reflect.TypeOf(0), Tag: `yaml:"soft" validate:"gte=1"`},
+		{Name: "Hard", Type: reflect.TypeOf(0), Tag: `yaml:"hard" validate:"required,lte=100"`},
+	})
+	depth := 1 + c.Rng.Intn(3)
+	ft := lim
+	for i := 0; i < depth; i++ {
+		ft = reflect.PointerTo(ft)
+	}
+	full := []string{`value:"${p.limits},validate"`, `prefix:"p.limits,validate"`, `prop:"p.limits,validate"`}[c.Rng.Intn(3)]
+	h := world.NewHolder(world.BuildStruct([]world.FieldSpec{{Name: "F", Type: ft, Tag: full}}))
+	r := world.Start(&world.Scenario{Config: doc}, world.Options{Extra: []any{h}, NoTracer: true, BinderBudget: 20000})
+	c.Count("starts", 1)
+	c.Count("validated_deep_pointer_struct_properties", 1)
+	detail := map[string]any{"tag": full, "config": doc, "field_type": ft.String(), "outcome": core.Short(r.OutcomeDetail(), 300)}
+	if abnormal(r.Outcome()) {
+		c.Fail("", fmt.Sprintf("tag %s on a %s field: %s", full, ft, r.OutcomeDetail()), detail)
+		return
+	}
+	v := reflect.ValueOf(h).Elem().Field(0)
+	for v.Kind() == reflect.Pointer && !v.IsNil() {
+		v = v.Elem()
+	}
+	if r.Outcome() != "ok" || v.Kind() != reflect.Struct || v.Field(0).Int() != int64(a) || v.Field(1).Int() != int64(b) {
+		c.Fail("", fmt.Sprintf("tag %s on a %s field, every member constraint satisfied (soft %d, hard %d): outcome %s, field %v: %s", full, ft, a, b, r.Outcome(), v, core.Short(r.OutcomeDetail(), 200)), detail)
+		return
+	}
+	c.Nontrivial(fmt.Sprint("deeppointer|", full, depth))
+}
+
 func (p c18) Run(c *core.Ctx) {
+	if c.Index%24 == 2 {
+		p.negativeDefaults(c)
+		return
+	}
+	if c.Index%24 == 14 {
+		p.deepPointer(c)
+		return
+	}
 	if c.Index%24 == 5 {
 		p.preset(c)
 		return
